@@ -14,6 +14,11 @@ NOT_CARRIED = [
     "square-root laws, which have no instance in Instances/ (Qc has no square roots; an instance over R would "
     "rest on the stdlib real-number axioms); all other theorems are instantiated at Qc in Instances/TilingQc.v, "
     "and C08_area_sum states the area clause without square roots",
+    "C08_axis_permutation / _index / _vertices / C08_kang_axis_permutation (the 48 signed axis permutations map the "
+    "tiling of a wall onto the tiling of the image wall, patches renumbered, vertices reordered by one fixed order) are "
+    "identities of exact ordered-field arithmetic, instantiated at Qc in Instances/TilingQc.v; in float64 a mirrored "
+    "cell edge -(x_max) + k*s equals -(x_min + (n-k)*s) only up to rounding.  This check does not run the code on "
+    "permuted walls; C17's harness matches the patch centres of the 48 placed scenes through sigma",
     "walls that are not axis-aligned rectangles (no zero extent: the code raises UnboundLocalError; the model's "
     "tiling_defined is false) are outside the property; only the raise/undefined agreement is checked",
 ]
